@@ -30,11 +30,42 @@ type writer struct {
 	prefix bool
 	slowNs time.Duration
 	got    []rec
+	roller *rogger.RollFileWriter
+	dir    string
+}
+
+// collect reads the roller's files, oldest first, into got (one record per entry found).
+func (w *writer) collect() {
+	if w.roller == nil {
+		return
+	}
+	var names []string
+	for i := 60; i >= 1; i-- {
+		names = append(names, fmt.Sprintf("roll%d.log", i))
+	}
+	names = append(names, "roll.log")
+	w.mu.Lock()
+	w.got = nil
+	for _, n := range names {
+		b, err := os.ReadFile(filepath.Join(w.dir, n))
+		if err != nil {
+			continue
+		}
+		for _, m := range tokRe.FindAllString(string(b), -1) {
+			w.got = append(w.got, rec{m, 0})
+		}
+	}
+	w.mu.Unlock()
 }
 
 func (w *writer) Write(v []byte) {
 	if w.slowNs > 0 {
 		simrt.Sleep(w.slowNs)
+	}
+	if w.roller != nil {
+		// the framework's own size-rolling file writer: what counts is what ends up in the files
+		w.roller.Write(v)
+		return
 	}
 	w.mu.Lock()
 	w.got = append(w.got, rec{string(v), simrt.Step()})
@@ -89,6 +120,12 @@ func (s *S) Run(c *scen.Ctx) {
 		if simrt.Draw(6, "c20.slow") == 5 {
 			w.slowNs = time.Duration(1+simrt.Draw(5, "c20.slowns")) * time.Millisecond
 			c.Count("fault.slow_writer", 1)
+		}
+		if i == 0 && simrt.Draw(5, "c20.roller") == 4 {
+			if dir, err := os.MkdirTemp("", "vsim-c20-roll"); err == nil {
+				w.dir, w.roller = dir, rogger.VerifNewSmallRoller(dir, "roll", 60, int64(60+40*simrt.Draw(6, "c20.rollsize")))
+				c.Count("probe.size_rolling_file_writer", 1)
+			}
 		}
 		s.writers = append(s.writers, w)
 	}
@@ -234,6 +271,7 @@ func (s *S) snapshotAtReturn(d time.Duration) {
 	s.flushRet = simrt.Step()
 	s.flushDur = d
 	for _, w := range s.writers {
+		w.collect()
 		w.mu.Lock()
 		s.gotAtRet = append(s.gotAtRet, append([]rec(nil), w.got...))
 		w.mu.Unlock()
@@ -331,6 +369,10 @@ func (s *S) Check(c *scen.Ctx, res *simrt.Result) {
 	}
 	// after the run: still nothing twice
 	for wi, w := range s.writers {
+		w.collect()
+		if w.dir != "" {
+			os.RemoveAll(w.dir)
+		}
 		seen := map[string]int{}
 		for _, r := range w.got {
 			for _, m := range tokRe.FindAllString(r.data, -1) {
